@@ -70,7 +70,7 @@ def cases(draw):
     return {'depth': d, 'top': top, 'mix_at': mix_at, 'sib_at': sib_at, 'hooks': hooks,
             'word_cls': word_cls, 'raise_cls': raise_cls, 'position': position,
             'objs': [obj() for _ in range(n)],
-            'order_rev': draw(st.booleans())}
+            'order_rev': draw(st.booleans()), 'mix_first': draw(st.booleans())}
 
 
 def build_spec(case):
@@ -105,7 +105,8 @@ def build_spec(case):
     for i in range(d):
         bases = ['K%d' % (i - 1)] if i else (['Top'] if case['top'] else [])
         if case['mix_at'] == i:
-            bases = bases + ['Mix']
+            # the unregistered mix-in may be listed before or after the chain base
+            bases = (['Mix'] + bases) if case.get('mix_first') else (bases + ['Mix'])
         c = {'name': 'K%d' % i, 'kind': 'obj', 'bases': bases,
              'params': [{'name': 'p%d' % j, 'type': 'int'} for j in range(i + 1)]}
         if i == case['raise_cls']:
